@@ -327,12 +327,12 @@ def sector_hist_chunk(hs):
 
 # ---- the string constructor: Equation(lhs, rhs=<expression text>) then terms added ---------------------------------------------------------------
 
-CTOR_LEADS = ['(x)*(y)', '(a)/(b)', 'x*y', '(a+b)', 'a+b*x', '-x', '(-x)*y', '((a))', '(a+b)*(x-y)', 'x*(y)', '-(x)*(y)', '2*x', 'a*b - 1']
+CTOR_LEADS = ['a < b', 'a >= b', '-a < b', 'a == b', '(x)*(y)', '(a)/(b)', 'x*y', '(a+b)', 'a+b*x', '-x', '(-x)*y', '((a))', '(a+b)*(x-y)', 'x*(y)', '-(x)*(y)', '2*x', 'a*b - 1']
 CTOR_TERMS = ['y', '-x', 'x*y', '2']
 
 
 # leads stated in the ONE-string form Equation('z = <lead>'), with a comparison (a second '=') inside
-ONESTRING_LEADS = ['(a >= b)*c', 'c*(a <= b)', '(a == b)*c', '(a != b) + c', 'x*y', '(a+b)']
+ONESTRING_LEADS = ['a >= b', 'a < b', '(a >= b)*c', 'c*(a <= b)', '(a == b)*c', '(a != b) + c', 'x*y', '(a+b)']
 
 
 def ctor_cases(tier):
